@@ -19,6 +19,9 @@ SOURCES = {
     "code+eeprom": "nop\n.eseg\nee: .db 1, 2, 3\n.cseg\nldi r16, ee\n",
     "eeprom-only": ".eseg\n.dw 0x1234\n.db 7\n",
     "empty": "; nothing here\n",
+    # images with whole rows of erased cells (0xFF) and of zeros: at the end, in the middle, the whole EEPROM
+    "erased-rows": "ldi r16, 1\n" + ".dw 0xffff\n" * 15 + "nop\n" + ".dw 0xffff, 0xffff, 0xffff, 0xffff, 0xffff, 0xffff, 0xffff, 0xffff\n" * 2 + ".eseg\n" + ".db 0xff\n" * 32 + "\n",
+    "zero-rows": ".dw 0, 0, 0, 0, 0, 0, 0, 0\n" * 3 + "ret\n" + ".dw 0, 0, 0, 0, 0, 0, 0, 0\n.eseg\n.db 1\n" + ".db 0\n" * 31,
     "big": ".org 0x8005\nnop\n.eseg\n.org 0x1fe\n.db 9\n",
     "messages": ".message \"hi\"\nnop\n",
     "fail-parse": "ldi r16,, 1\n",
